@@ -34,6 +34,17 @@ def keys_nonneg(v):
     return True
 
 
+def korder(t1, t2):
+    """mirror of DeltaReverseSym.korder: dicts paired by the diff list their common keys in the same order"""
+    if (type(t1) is list and type(t2) is list) or (type(t1) is tuple and type(t2) is tuple):
+        return all(korder(x, y) for x, y in zip(t1, t2))
+    if isinstance(t1, dict) and isinstance(t2, dict):
+        c1 = [V.canon_atom(k) for k in t1 if k in t2]
+        c2 = [V.canon_atom(k) for k in t2 if k in t1]
+        return c1 == c2 and all(korder(v, t2[k]) for k, v in t1.items() if k in t2)
+    return True
+
+
 def hyp_expr8(t1, t2, zip_, thr, conv_tbl, kn):
     """Coq expression (sx) of the observed guards of the C08 theorems on the bidirectional delta of the diff:
     indep_verified d (claimed by C08_indep_guard_of_diff when keys_nonneg t2), ops_ok 0 on every difflib opcode
@@ -41,10 +52,10 @@ def hyp_expr8(t1, t2, zip_, thr, conv_tbl, kn):
     ops = D.coq_ops_table(D.opcode_table(t1, t2))
     return ("(let r := run_diff hatom_deep (tbl_udiff %s) (tbl_ops %s) no_paths no_paths %s %s %s in "
             "let d := to_delta (tbl_conv %s) true false (tbl_ops %s) %s %s (fst r) (snd r) in "
-            "sx_c08hyp %s (ops_table_disjointb %s) (forallb sym_okb (fst r)) (keys_nonneg %s))") % (
+            "sx_c08hyp5 %s (ops_table_disjointb %s) (forallb sym_okb (fst r)) (keys_nonneg %s) (korderb %s %s))") % (
         D.coq_udiff_table(D.udiff_table(t1, t2)), ops, D.coq_cfg(zip_, thr, True), V.to_coq(t1), V.to_coq(t2),
         conv_tbl, ops, V.to_coq(t1), V.to_coq(t2),
-        "(indep_verified d)" if kn else "true", ops, V.to_coq(t2))
+        "(indep_verified d)" if kn else "true", ops, V.to_coq(t2), V.to_coq(t1), V.to_coq(t2))
 
 
 def holds8(t1, t2, cfg, always=False):
@@ -145,6 +156,8 @@ def one_pair(ctx, t1, t2, cases, corr=True, hyp_cases=None):
                     side = -side
                 ctx.count("back_and_forth_sequences")
             except Exception as e:
+                import traceback, sys
+                sys.stderr.write("BF-TRACE " + repr(t1) + " " + repr(t2) + " step=%r side=%r cur=%r\n" % (step, side, cur) + traceback.format_exc() + "\n")
                 ctx.fail(dict(base_case, observed="raised %s" % type(e).__name__), "back-and-forth sequence raised")
         # --- a directed delta refuses subtraction ---
         try:
@@ -215,8 +228,13 @@ def one_pair(ctx, t1, t2, cases, corr=True, hyp_cases=None):
                 if d.diff.get("iterable_item_moved"):
                     ctx.count("hyp:cases_with_moved_items")
                 # expected: every guard holds on in-guard inputs (indep_verified is claimed only when keys_nonneg t2)
-                hyp_cases.append((hyp_expr8(t1, t2, zip_, thr, conv, kn), [True, True, True, kn],
-                                  dict(tag, hypotheses="indep_verified/ops_disjoint/sym_ok/keys_nonneg")))
+                ko = korder(t1, t2)
+                ctx.count("hyp:korder_true" if ko else "hyp:korder_false")
+                if zip_:
+                    ctx.count("hyp:positional_all_guards_of_sub_inverts" if (ko and kn and keys_nonneg(t1))
+                              else "hyp:positional_outside_guards_of_sub_inverts")
+                hyp_cases.append((hyp_expr8(t1, t2, zip_, thr, conv, kn), [True, True, True, kn, ko],
+                                  dict(tag, hypotheses="indep_verified/ops_disjoint/sym_ok/keys_nonneg/korder")))
             for base, res, n in corrupt_cases[:2]:
                 if not DC.in_universe(base) or not DC.in_universe(res):
                     continue
